@@ -291,6 +291,12 @@ def normalize(vectors, bilinear_form=None):
 
     abs_norms = np.sqrt(np.abs(np.expand_dims(sq_norms, axis=-1)))
 
+    # the quotient is written back into `vectors`, which is not
+    # possible if it is an array of integers (e.g. coordinates
+    # given as a list of Python ints)
+    if np.asarray(vectors).dtype.kind in "iub":
+        vectors = np.asarray(vectors).astype('float64')
+
     return np.divide(vectors, abs_norms, out=vectors,
                      where=(abs_norms.astype('float64') != 0))
 
